@@ -294,7 +294,7 @@ func corpusHash(prog string) string {
 	if v, ok := corpusHashes.Load(prog); ok {
 		return v.(string)
 	}
-	h := world.HashTree(filepath.Join(simbuild.VerifDir(), "corpus", prog), nil)
+	h := world.HashTree(filepath.Join(world.CorpusRoot(), prog), nil)
 	corpusHashes.Store(prog, h)
 	return h
 }
